@@ -317,6 +317,8 @@ TAKERS = ('myth_queue_pop', 'myth_queue_take')
 
 
 def rule6_nodrop(ctx, fl):
+    ctx.doc('C02.8', 'env rebinding (sibling agreement over all consumers of popped/stolen threads): before the switch that '
+            'resumes a thread obtained from myth_queue_pop / the steal function, th->env is stored with the executing worker\'s env')
     ctx.doc('C02.6', 'a thread obtained from myth_queue_pop / the steal function / myth_queue_take reaches, on every path '
             'from its non-null edge, a context switch whose target is its context, a run-queue insertion, or the '
             'function\'s return value')
@@ -349,8 +351,29 @@ def rule6_nodrop(ctx, fl):
                 for ins in call_sites(f, lib.RUNQ_INSERT):
                     if len(ins.args) > 1 and c.id in f.sources(ins.args[1]):
                         consume.append(ins)
-                tests = null_tests(f, c.id)
                 kname = '%s: %s result' % (name, c.callee or 'steal')
+                # sibling agreement: whoever resumes a thread it took from a queue rebinds it to the executing worker
+                for sw_ins in [x for x in consume if x.op == 'call' and x.asm is not None]:
+                    cand = [st for st in f.stores_to('myth_thread.env') if c.id in f.sources(f.ap(st.ops[1]).root) and
+                            env_origin_ok(f, st.ops[0])[0]]
+                    # on the edge where a thread was obtained, every path to the switch passes the rebinding store
+                    nts = null_tests(f, c.id) + [t_ for p_ in f.order if p_.op == 'phi' and c.id in f.sources(p_.id) for t_ in null_tests(f, p_.id)]
+                    sts = cand if cand and nts and all(
+                        sw_ins not in f.reachable_from(lib.first_inst(f, nn), blocked=cand, include_start=True) for br, nn, nl in nts) else []
+                    if cand and not nts and any(f.dominates_f(st, sw_ins) for st in cand):
+                        sts = cand
+                    site = [s_ for s_ in sw if s_.ins is sw_ins][0]
+                    incb = False
+                    if site.callback:
+                        cbf = f.mod.fn(site.callback)
+                        if cbf is not None:
+                            # e.g. myth_yield_ex_1: next_thread->env = env
+                            incb = any(st for st in cbf.stores_to('myth_thread.env'))
+                    ctx.ob('C02.8', '%s: %s rebinds the thread before resuming it (%s)' % (name, c.callee or 'steal', site.callback or site.kind),
+                           bool(sts) or incb,
+                           'a thread taken from a run queue may have been put there by another worker: th->env must be set to the '
+                           'executing worker before the thread runs (its exit path and its wake-ups use th->env)', loc=sw_ins.loc)
+                tests = null_tests(f, c.id)
                 # values merged through phis (next = pop(); if (!next) next = steal()) are tested later:
                 merged = [p for p in f.order if p.op == 'phi' and c.id in f.sources(p.id)]
                 for p in merged:
@@ -370,6 +393,7 @@ def rule6_nodrop(ctx, fl):
     if n < 10:
         raise AnalysisBroken('C02.6: only %d take sites found' % n)
     ctx.floor('C02.6', 16)
+    ctx.floor('C02.8', 7)
 
 
 def returns_value(f, c):
@@ -484,6 +508,10 @@ MUTANTS = [
      'edits': [(SCHED, "  case myth_yield_option_local_first: {\n    next = myth_queue_pop(&env->runnable_q);\n    if (!next) {\n      next = g_myth_steal_func(env->rank);\n    }\n    break;", "  case myth_yield_option_local_first: {\n    next = myth_queue_pop(&env->runnable_q);\n    if (next && next->status != MYTH_STATUS_READY) {\n      next = g_myth_steal_func(env->rank);\n    }\n    break;")]},
     {'name': 'yield forgets to switch to the thread it removed', 'expect': 'C02.6',
      'edits': [(SCHED, "  if (next) {\n    next->env=env;\n    //Switch context and push current thread to runqueue", "  if (next && opt != myth_yield_option_steal_only) {\n    next->env=env;\n    //Switch context and push current thread to runqueue")]},
+    {'name': 'exit path resumes a popped thread without rebinding its env (original defect D13)', 'expect': 'C02.8',
+     'edits': [(SCHED, "    next->env = env;\n    //Switch to the next thread\n    myth_set_context_withcall(&next->context, myth_entry_point_1,", "    //Switch to the next thread\n    myth_set_context_withcall(&next->context, myth_entry_point_1,")]},
+    {'name': 'join resumes a popped thread without rebinding its env', 'expect': 'C02.8',
+     'edits': [(SCHED, "    next->env=env;\n    //Switch to next runnable thread", "    //Switch to next runnable thread")]},
     {'name': 'push re-centre shifts base by a different amount', 'expect': 'C02.7',
      'edits': [(WSQ, "      q->top += offset;\n      q->base += offset;\n    }\n    t = q->top;", "      q->top += offset;\n      q->base += offset + 1;\n    }\n    t = q->top;")]},
     {'name': 'put re-centre moves one slot too few', 'expect': 'C02.7',
